@@ -1,9 +1,10 @@
 """Seeded generator of driver-B histories (market-level schedules)."""
 import math
+import sys
 import random
 from typing import Any, Dict, List
 
-TICKS = [1.0, 0.5, 0.25, 0.1, 10.0, 0.01, 2.0, 0.00001, 3.0, 0.3]
+TICKS = [1.0, 0.5, 0.25, 0.1, 10.0, 0.01, 2.0, 0.00001, 3.0, 0.3, 2.5, 1.5, 12.5]
 
 
 def base_config(n_markets: int, n_agents: int, ticks: List[float], p0s: List[float]) -> Dict[str, Any]:
@@ -61,6 +62,11 @@ def gen_history(r: random.Random, profile: str = "mix") -> Dict[str, Any]:
     p0s = []
     for t in ticks:
         p0s.append(float(round(r.choice([100, 300, 50, 1000]) / t) * t) if t >= 0.01 else 300.0)
+    if r.random() < 0.06:
+        # a price that is a billion ticks or more away from zero (an index level on a fine grid, a huge nominal
+        # price on a unit grid): one tick is then below 1e-9 of the price
+        for i_ in range(n_markets):
+            ticks[i_], p0s[i_] = r.choice([(0.00001, 30000.0), (0.00001, 38000.0), (1.0, 5e9), (0.01, 2.5e7)])
     cfg = base_config(n_markets, n_agents, ticks, p0s)
     n_ops = r.randint(5, 60)
     continuous = r.random() < 0.5
@@ -98,10 +104,14 @@ def gen_history(r: random.Random, profile: str = "mix") -> Dict[str, Any]:
             op["px"] = gen_price(r, ticks[m], p0s[m], side, 0.0) if px is None else px
         if ttl == "d":
             ttl = r.choice([1, 2, 3, 10]) if r.random() < p_ttl else None
+            if ttl is not None and r.random() < 0.02:
+                ttl = r.choice([sys.maxsize, 2 ** 63 - 1, 2 ** 62, 10 ** 18])  # "never expires"
         if ttl is not None:
             op["ttl"] = ttl
-        if typed and r.random() < 0.3:
-            op["typ"] = r.choice(["np", "fl", "fr", "dc", "pk"])
+        if typed and r.random() < 0.3 and not (ttl is not None and ttl > 10 ** 9):
+            # (a huge lifetime stays a Python int: in a fixed-width NumPy type the addition of the acceptance time
+            # would overflow in NumPy's own arithmetic, which is not pams' doing)
+            op["typ"] = r.choice(["np", "fl", "fr", "dc", "pk", "ip"])
         c = (continuous and outage == 0) if cont is None else cont
         if c:
             op["cont"] = True
